@@ -35,7 +35,7 @@ var monOf = map[string][]string{
 	"C02": {"M02"},
 	"C03": {"M03"},
 	"C10": {"M10"},
-	"C19": {"M19"},
+	"C19": {"M19", "M10/evicted-without-cause"}, // the "never delivered on account of time before that" half
 }
 
 func main() {
@@ -128,9 +128,8 @@ func buildJobs(prop, tier string) []interface{} {
 	case "C19":
 		timeouts = []int64{-1, 0, 2, farTimeout}
 	default:
-		if thorough {
-			timeouts = []int64{farTimeout, 2}
-		}
+		// time interacts with ordering / grouping / loss accounting too (expiry evicts)
+		timeouts = []int64{farTimeout, 2}
 	}
 	for _, to := range timeouts {
 		for _, m := range maxIn {
@@ -169,6 +168,13 @@ func buildJobs(prop, tier string) []interface{} {
 		}
 		cfg := Config{MaxInFlight: m, TimeoutTicks: farTimeout, Base: 1<<32 - 3, Offsets: []uint32{0, 1, 3}, Kinds: k, MaxRecs: 3, PostClose: 2}
 		jobs = append(jobs, Job{Mode: "bfs", Cfg: cfg, MaxStates: maxStates})
+	}
+	// a Stream that re-enters the Reassembler from its callback (C01 only: grouping / exactly once)
+	if prop == "C01" {
+		for _, m := range []int{1, 2, 3} {
+			cfg := Config{MaxInFlight: m, TimeoutTicks: farTimeout, Base: 5, Offsets: []uint32{0, 1, 2, 4}, Kinds: []string{"mid", "fin", "eoe"}, MaxRecs: 2, PostClose: 1, Reenter: true}
+			jobs = append(jobs, Job{Mode: "bfs", Cfg: cfg, MaxStates: maxStates})
+		}
 	}
 	// all-sequences cross-check (no state merging)
 	depth := 6
